@@ -8,7 +8,15 @@ export GOFLAGS=-mod=mod GOPROXY=off
 LOG="$OUT/VERIFY.log"; : > "$LOG"
 cd "$WT" || exit 2
 git checkout -q -- . && git clean -fdq
-if ! git apply --check "$OUT/patch.diff" 2>>"$LOG"; then echo "$OUT: PATCH-DOES-NOT-APPLY"; exit 1; fi
+BASE=$(git -C /repo rev-parse HEAD)
+git checkout -q --detach "$BASE"
+if ! git apply --check "$OUT/patch.diff" 2>>"$LOG"; then
+  # made against the pinned snapshot; a later fix: commit touched the same lines
+  BASE=$(git -C /repo rev-list --max-parents=0 HEAD | tail -1)
+  git checkout -q --detach "$BASE"
+  if ! git apply --check "$OUT/patch.diff" 2>>"$LOG"; then echo "$OUT: PATCH-DOES-NOT-APPLY"; exit 1; fi
+fi
+echo "base commit $BASE" >>"$LOG"
 # packages touched by the patch
 PKGS=$(grep '^+++ b/' "$OUT/patch.diff" | sed 's#^+++ b/##' | xargs -n1 dirname | sort -u | sed 's#^#./#')
 demo_files=$(ls "$OUT"/*_test.go 2>/dev/null)
@@ -55,4 +63,4 @@ done
 ALL=$(echo $PKGS $IMPORTERS | tr ' ' '\n' | sort -u | tr '\n' ' ')
 if go test -p 4 -count=1 $ALL >>"$LOG" 2>&1; then D=suite-pass; else D=SUITE-FAIL; fi
 git checkout -q -- . && git clean -fdq
-echo "$OUT: unpatched-demo=$A patched=$B demo=$C existing=$D pkgs=[$(echo $ALL | wc -w)]"
+echo "$OUT: base=${BASE:0:7} unpatched-demo=$A patched=$B demo=$C existing=$D pkgs=[$(echo $ALL | wc -w)]"
